@@ -32,7 +32,8 @@ FUNCTIONS = {
            # the runner's own traceback printer (reached from handle_layer_failure through traceback.print_exc)
            + [('runner_sched', 'runner.resume_tests'), ('tbformat_c04', 'tb_format._iter_chain')],
     'C05': [(L, 'runner.gather_layers'), (L, 'runner.order_by_bases'), (L, 'runner.order_by_bases@complete'), (RR, TR + '__init__'), (RR, TR + 'testSetUp'),
-            (RR, TR + 'testTearDown'), (RR, TR + 'startTest'), (RR, TR + 'stopTest'), (RR, TR + 'addSkip'), PROTOCOL],
+            (RR, TR + 'testTearDown'), (RR, TR + 'startTest'), (RR, TR + 'stopTest'), (RR, TR + 'addSkip'), PROTOCOL,
+            RUN_TESTS],        # the test loops: stopTest (hence testTearDown) also when --post-mortem / ^C ends the loop early
     'C08': [('filter_c08', 'filter.build_filtering_func'), ('find_c14', 'find.find_suites'),
             ('select_c03', 'filter.Filter.global_setup'), ('select_c03', 'find.find_tests'), ('select_c03', 'find.find_tests@order'),
             ('options_c08', 'options.get_options@filters'),
@@ -67,8 +68,9 @@ FUNCTIONS = {
            + EVENTS + [PROTOCOL, RUN_TESTS],      # sys.stdout / sys.stderr: everything the restoration argument uses
     'C09': [('find_c09', 'find.tests_from_suite'), ('find_c15', 'options.get_options'),
             ('select_c03', 'filter.Filter.global_setup')],
-    'C11': [('shuffle_c11', 'shuffle.Shuffle.__init__'), ('shuffle_c11', 'shuffle.Shuffle.global_setup')],
-    'C15': [('find_c15', 'find.remove_stale_bytecode'), ('find_c15', 'options.get_options')],
+    'C11': [('shuffle_c11', 'shuffle.Shuffle.__init__'), ('shuffle_c11', 'shuffle.Shuffle.global_setup'),
+            ('find_c15', 'options.get_options@paths')],       # "the same discovered tests": search directories in command-line order
+    'C15': [('find_c15', 'find.remove_stale_bytecode'), ('find_c15', 'options.get_options'), ('find_c15', 'options.get_options@paths')],
     'C20': [('digraph_c20', 'digraph.DiGraph.sccs'), ('digraph_c20', 'digraph.DiGraph.sccs@partition'),
             ('digraph_c20', 'digraph.DiGraph.neighbors')],
     'C03': [('find_c09', 'find.tests_from_suite'), ('select_c03', 'find.find_tests'), ('select_c03', 'find.find_tests@order'),
@@ -84,7 +86,8 @@ FUNCTIONS = {
     'C14': [('find_c14', f) for f in ('find.strip_py_ext', 'find.contains_init_py', 'find.find_test_files_',
                                       'find.find_test_files', 'find.find_suites', 'find.test_dirs',
                                       'options.get_options@prefix')]
-           + [('options_c08', 'options.get_options@filters'), ('filter_c08', 'filter.build_filtering_func')],   # what --module accepts
+           + [('options_c08', 'options.get_options@filters'), ('filter_c08', 'filter.build_filtering_func'),   # what --module accepts
+              ('find_c15', 'options.get_options@paths')],
 
     'C10': [('runner_order', f) for f in ('runner.gather_layers', 'runner.order_by_bases', 'runner.order_by_bases@unitfirst', 'runner.order_by_bases@complete',
                                           'runner.layer_sort_key', 'runner.layer_sort_key._gather',
